@@ -765,13 +765,6 @@ func (c *EvalCtx) evalCall(x *ast.CallExpr) Val {
 		if n == 0 {
 			return IntV{sym(fname)}
 		}
-		if fname == "lim" && c.bound == nil {
-			// ghost-model invariant: a read through x never moves its position beyond lim(x)
-			if g, ok := fe.eng.voc.Ghost["pos"]; ok {
-				p := sx("select", fe.heapGet(c.st, "ghost.pos", g.Sort), sx(sym(g.Key), ts[0]))
-				fe.assume(sx("<=", p, sx("lim", ts[0])), "ghost invariant pos(x) <= lim(x)")
-			}
-		}
 		return IntV{sx(sym(fname), ts...)}
 	}
 	if n, ok := fe.eng.voc.UPreds[fname]; ok {
